@@ -52,6 +52,18 @@ def check(model: Model, rep: Report, tier: str):
         p5(model, rep)
     with rep.isolated():
         p6(model, rep)
+    from .c03 import h6
+    from ..resolve import CallGraph
+    with rep.isolated():
+        h6(model, rep, CallGraph(model), keep=lambda h: "repetition_code" in h.loc or "connectivity" in h.loc, rule="C09.P8")
+    rep.rules_text["C09.P8"] = ("the description a circuit is built from lists exactly its own qubits: a qubit listing handed out by one description and extended in place by a composite "
+                                "description is a fresh list (= C03.H6) -- otherwise the base description grows foreign qubits and the next circuit built from it resets, "
+                                "heralds and measures them")
+    from .c11 import f3
+    with rep.isolated():
+        f3(model, rep, "C09.P9")
+    rep.rules_text["C09.P9"] = ("the multi-round constructor builds every round as construct(...) -> apply_modifiers() -> flatten(): unrolling comes first, because flatten() "
+                                "drops the repetition counts of nested blocks and the round would run fewer cycles than requested (= C11.F3)")
 
 
 def qec_paths(model: Model):
